@@ -46,6 +46,7 @@ class GenA:
         self.pairs = []     # (ref, (nf, nf))
         self.blobs = []     # (ref, kind, nf)
         self.group_counter = 0
+        self.dim_defines = 0
         self.unit_symbol = {n: (d["symbols"][0] if d.get("symbols") else None)
                             for n, d in snapshot["units"].items() if not d.get("half_built")}
         self.prefix_symbol = {n: v[2] for n, v in snapshot["prefixes"].items()}
@@ -132,7 +133,8 @@ class GenA:
     def magnitude(self):
         r = self.rng.random()
         if r < 0.4:
-            return ["int", str(self.rng.choice([0, 1, 2, 3, 5, 7, 12, 100, -1, -4, 1000]))]
+            return ["int", str(self.rng.choice([0, 1, 2, 3, 5, 7, 12, 100, -1, -4, 1000, 2 ** 53, 2 ** 53 + 1,
+                                                -(2 ** 63), 10 ** 20, 123456789012345678901234567890]))]
         if r < 0.8:
             return ["float", repr(self.rng.choice([0.5, 1.5, 2.25, -3.75, 1e-3, 1e6, 0.1, 7.0]))]
         return ["dec", self.rng.choice(["1.5", "0.001", "12", "-2.50", "1E+3"])]
@@ -323,7 +325,7 @@ class GenA:
 
     def g_roundtrip(self):
         codec = self.rng.choice(["pickle2", "pickle3", "pickle4", "pickle5", "copy", "deepcopy",
-                                 "json", "json_ctx"])
+                                 "json", "json_ctx", "json_ctx_opts"])
         r = self.rng.random()
         if self.prop == "C15" and r < 0.12:
             p, mp = self.any_prefix()
@@ -533,6 +535,54 @@ class GenA:
         self.model.dims[name] = md
         self.dims.append((r, md))
 
+    def g_decl_shadow(self):
+        """A text is first looked up while it still reads as <prefix><unit>, then declared as
+        the symbol of another unit (define / derive / second alias): from then on the lookup
+        must return the declared unit."""
+        rng = self.rng
+        if not self.shipped_prefixes:
+            return
+        for _ in range(10):
+            pn, n = rng.choice(self.shipped_prefixes), rng.choice(self.shipped_units)
+            ps, us = self.prefix_symbol.get(pn), self.unit_symbol.get(n)
+            if not ps or not us:
+                continue
+            text = ps + us
+            if text in self.taken_symbols or text in self.taken_names or not self.symbol_ok(text):
+                continue
+            if self.model_resolve(text) != M.u_with_prefix(self.model.prefix_names[pn], self.model.unit_names[n]):
+                continue
+            self.group_counter += 1
+            self.emit({"op": "parse", "literal": text, "kind": "unit", "group": self.group_counter,
+                       "variant": "before-declaration",
+                       "nf": M.nf_json(M.u_with_prefix(self.model.prefix_names[pn], self.model.unit_names[n])),
+                       "ambiguous": False,
+                       "term_texts": [[text, M.nf_json(M.u_with_prefix(self.model.prefix_names[pn],
+                                                                        self.model.unit_names[n]))]]})
+            self.taken_symbols.add(text)
+            how = rng.choice(["define", "derive", "alias"])
+            if how == "define":
+                dref, md = self.any_dim()
+                name = self.fresh_name()
+                ref = self.emit({"op": "dim_unit", "dim": dref, "name": name, "symbol": text})
+                self.token_ref[name] = ref
+                self.unit_symbol[name] = text
+                self.units.append((ref, self.model.define_unit(name, text, md)))
+            elif how == "derive":
+                ref, nf = self._fresh_compound()
+                if ref is None:
+                    return
+                name = self.fresh_name()
+                r = self.emit({"op": "derive", "unit": ref, "name": name, "symbol": text})
+                self.model.name_unit(nf, name, text)
+                self.units.append((r, nf))
+            else:
+                ref, nf = self.leaf_unit()
+                r = self.emit({"op": "alias", "unit": ref, "symbol": text})
+                self.model.name_unit(nf, None, text)
+                self.units.append((r, nf))
+            return
+
     def g_decl_scale(self):
         rng = self.rng
         fault = rng.choice(["none", "none", "dup_name", "dup_symbol", "space"])
@@ -541,10 +591,24 @@ class GenA:
         self.qtys.append((zero, mu))
         md = self.model.dim_of(mu)
         dims = [n for n, d in self.model.dims.items() if d == md]
+        if rng.random() < 0.25:
+            # a zero point measured in a unit of ANOTHER dimension: whatever the library makes of
+            # it, a refusal must leave nothing behind
+            dims = [n for n, d in sorted(self.model.dims.items()) if d != md]
+            fault = "zero_other_dimension" if fault == "none" else fault
+            md = self.model.dims[dims[0]] if dims else md
+            dims = dims[:1]
         if not dims:
             return
-        name, symbol = self.decl_names(fault, *self.unit_taken())
+        name, symbol = self.decl_names(fault if fault != "zero_other_dimension" else "none", *self.unit_taken())
         op = {"op": "scale", "dim": ["d", sorted(dims)[0]], "zero": zero, "name": name, "symbol": symbol}
+        if fault == "zero_other_dimension":
+            # accepted on the shipped code (no validation); if a version refuses it, clause (c) applies
+            op["fault"] = fault
+            r = self.emit(op)
+            self.token_ref[name] = r
+            self.units.append((r, self.model.define_unit(name, symbol, md)))
+            return
         if fault != "none":
             op["fault"] = fault
             self.emit(op)
@@ -716,6 +780,34 @@ class GenA:
                 r = self.emit({"op": "load", "blob": b})
                 self.qtys.append((r, mu))
 
+    def g_dim_define(self):
+        """A new fundamental dimension (documented as allowed): every existing exponent tuple
+        grows; then units of it and products with older units."""
+        if self.dim_defines >= 2:
+            return
+        self.dim_defines += 1
+        name = self.fresh_name()
+        ref = self.emit({"op": "dim_define", "name": name, "symbol": name.upper()[:3]})
+        n = len(self.model.fundamental)
+        self.model.fundamental.append(name)
+        md = (0,) * n + (1,)
+        self.model.dims[name] = md
+        self.dims.append((ref, md))
+        uname = self.fresh_name()
+        uref = self.emit({"op": "dim_unit", "dim": ref, "name": uname, "symbol": uname})
+        self.token_ref[uname] = uref
+        self.unit_symbol[uname] = uname
+        nf = self.model.define_unit(uname, uname, md)
+        self.units.append((uref, nf))
+        (x, mx) = self.any_unit(True)
+        self._u({"op": "u_mul", "a": x, "b": uref}, M.u_mul(mx, nf))
+
+    def g_dim_roundtrip(self):
+        d, md = self.any_dim()
+        codec = self.rng.choice(["pickle2", "pickle4", "pickle5", "json"])
+        ref = self.emit({"op": "dump", "x": d, "kind": "dim", "codec": codec})
+        self.blobs.append((ref, "dim", md))
+
     def g_dump(self):
         codec = self.rng.choice(["pickle2", "pickle3", "pickle4", "pickle5", "json", "json"])
         if self.qtys and self.rng.random() < 0.35:
@@ -736,6 +828,8 @@ class GenA:
         ref = self.emit({"op": "load", "blob": b})
         if kind == "unit":
             self.units.append((ref, mx))
+        elif kind == "dim":
+            self.dims.append((ref, mx))
         else:
             self.qtys.append((ref, mx))
 
@@ -758,6 +852,8 @@ class GenA:
             if kind == "unit":
                 self.units.append((ref, mx))
                 self.build_unit(mx)
+            elif kind == "dim":
+                self.dims.append((ref, mx))
             else:
                 self.qtys.append((ref, mx))
 
@@ -855,6 +951,7 @@ class GenA:
         SUP = {"-": "\u207b", "0": "\u2070", "1": "\u00b9", "2": "\u00b2", "3": "\u00b3", "4": "\u2074",
                "5": "\u2075", "6": "\u2076", "7": "\u2077", "8": "\u2078", "9": "\u2079"}
         texts = []
+        term_texts = []
         amb = False
         for pn, n, e in terms:
             sym = self.unit_symbol.get(n)
@@ -869,6 +966,7 @@ class GenA:
             if self.model_resolve(t) != intended:
                 amb = True
             texts.append((t, e, n, pn))
+            term_texts.append([t, M.nf_json(intended)])
         self.group_counter += 1
         g = self.group_counter
 
@@ -901,7 +999,9 @@ class GenA:
         for name, text in variants[: rng.choice([2, 3, 4, 6])]:
             bases = {b for _, _, _, pn in texts if pn for b, _ in self.model.prefix_names[pn]}
             self.emit({"op": "parse", "literal": text, "kind": "unit", "group": g, "variant": name.split("/")[0],
-                       "nf": M.nf_json(nf), "ambiguous": amb, "mixed": len(bases) > 1})
+                       "nf": M.nf_json(nf), "ambiguous": amb, "mixed": len(bases) > 1,
+                       "term_texts": term_texts if not name.startswith("names") else
+                       [[n, M.nf_json(self.model.unit_names[n])] for _, _, n, _ in texts]})
 
     def g_adversarial_symbol(self):
         """Define a unit whose symbol is <prefix symbol><existing unit symbol>."""
@@ -962,6 +1062,7 @@ class GenA:
             "q_new": 5, "q_bin": 5, "q_unit": 3, "q_pow": 2, "q_root": 2, "quantify": 3,
             "unprefixed": 2, "q_unit_of": 2, "convert": 5, "cmp": 3, "roundtrip": 4,
             "evict": 4, "import": 1, "d_ops": 2, "p_ops": 2, "dump": 3, "load": 2, "restart": 1.5,
+            "dim_define": 0.7, "dim_roundtrip": 1.5,
         },
         "C02": {
             "law": 22, "define_unit": 4, "derive": 3, "u_mul": 8, "u_pow": 5, "u_root": 5, "pow_then_root": 4,
@@ -974,13 +1075,13 @@ class GenA:
             "import": 3, "evict": 1, "u_mul": 3, "render": 4, "q_new": 2, "as_ratio": 1,
         },
         "C15": {
-            "roundtrip": 22, "dump": 10, "load": 8, "restart": 3, "twins": 4, "define_unit": 4, "derive": 3, "decl_alias": 3,
+            "roundtrip": 22, "dump": 10, "load": 8, "restart": 3, "twins": 4, "dim_define": 0.7, "dim_roundtrip": 3, "define_unit": 4, "derive": 3, "decl_alias": 3,
             "u_mul": 8, "u_pow": 5, "p_mul_u": 6, "u_root": 2, "as_ratio": 2, "q_new": 8, "q_bin": 3, "q_unit": 3,
             "q_pow": 2, "render": 2, "evict": 2, "import": 1, "d_ops": 3, "p_ops": 3,
         },
         "C19": {
             "decl_unit": 10, "decl_derive": 10, "decl_alias": 10, "decl_prefix": 8, "decl_dim": 5,
-            "decl_scale": 3, "u_mul": 6, "u_pow": 3, "p_mul_u": 3, "p_ops": 3, "d_ops": 3,
+            "decl_scale": 4, "decl_shadow": 5, "u_mul": 6, "u_pow": 3, "p_mul_u": 3, "p_ops": 3, "d_ops": 3,
             "render": 3, "parse": 2, "q_new": 2, "convert": 2, "roundtrip": 3, "evict": 1, "import": 2,
             "as_ratio": 2,
         },
